@@ -1,2 +1,438 @@
-(* Proofs for property C14. *)
-From SC.Model Require Import Base.
+(* Proofs for property C14 (unix timestamps <-> date-times).
+
+   1. instant_*           a timestamp is (day number, second of the day), floor division, all of Z;
+                          with the calendar bijection: the civil reading (y, m, d, h, mi, s) of a
+                          timestamp and back is the identity, in both directions
+   2. years_1_9999_*      the timestamps of the years 1..9999 are exactly -62135596800 .. 253402300799
+                          and all of them are accepted (dt_ok)
+   3. to_unixtime_* / from_unixtime_* / roundtrip_* / at_date_*   the rule functions
+   4. z_to_str_*          Z_to_str is the decimal representation, for every integer
+   5. datetime_print_*    the printed fields are those of the instant shifted by the zone offset
+   6. examples            non-vacuity *)
+From SC.Model Require Import Base Num NumQ NumF64 Types Config Case Chrono Parser RuleFns Items Format Run64.
+From SC.Spec Require Import Calendar.
+From Coq Require Import ZArith Lia QArith Qcanon.
+
+Ltac Zify.zify_post_hook ::= Z.to_euclidean_division_equations.
+Local Open Scope Z_scope.
+
+(* ------------------------------------------------------------------------------------- *)
+(* 1. an instant is a day number and a second of the day                                  *)
+(* ------------------------------------------------------------------------------------- *)
+Theorem instant_decompose : forall n,
+  dt_of (day_of_dt n) (secs_of_day n) = n /\ 0 <= secs_of_day n < 86400.
+Proof. intro n. unfold dt_of, day_of_dt, secs_of_day. lia. Qed.
+
+Theorem instant_compose : forall d sec, 0 <= sec < 86400 ->
+  day_of_dt (dt_of d sec) = d /\ secs_of_day (dt_of d sec) = sec.
+Proof. intros d sec H. unfold dt_of, day_of_dt, secs_of_day. lia. Qed.
+
+(* floor, not truncation: one second before the epoch is 23:59:59 of day -1 *)
+Lemma instant_negative : forall n, n < 0 -> day_of_dt n < 0.
+Proof. intros n H. unfold day_of_dt. lia. Qed.
+
+(* the civil reading of a timestamp, and the timestamp of a civil date-time (spec side) *)
+Definition hms_of (sod : Z) : Z * Z * Z := (sod / 3600, (sod / 60) mod 60, sod mod 60).
+Definition sod_of (h mi sec : Z) : Z := h * 3600 + mi * 60 + sec.
+
+Definition civil_of_ts (n : Z) : (Z * Z * Z) * (Z * Z * Z) :=
+  (civil_from_days (day_of_dt n), hms_of (secs_of_day n)).
+Definition ts_of_civil (ymd : Z * Z * Z) (t : Z * Z * Z) : Z :=
+  let '(y, m, d) := ymd in let '(h, mi, sec) := t in
+  dt_of (days_from_civil y m d) (sod_of h mi sec).
+
+Definition valid_hms (t : Z * Z * Z) : Prop :=
+  let '(h, mi, sec) := t in 0 <= h < 24 /\ 0 <= mi < 60 /\ 0 <= sec < 60.
+Definition valid_ymd (ymd : Z * Z * Z) : Prop :=
+  let '(y, m, d) := ymd in valid_date y m d = true.
+
+Lemma hms_of_valid sod : 0 <= sod < 86400 ->
+  valid_hms (hms_of sod) /\ (let '(h, mi, sec) := hms_of sod in sod_of h mi sec = sod).
+Proof. intro H. unfold hms_of, valid_hms, sod_of. lia. Qed.
+
+Lemma hms_of_sod_of h mi sec : valid_hms (h, mi, sec) ->
+  hms_of (sod_of h mi sec) = (h, mi, sec) /\ 0 <= sod_of h mi sec < 86400.
+Proof.
+  unfold valid_hms, hms_of, sod_of. intros (Hh & Hm & Hs).
+  split; [ | lia ]. f_equal; [ f_equal | ]; lia.
+Qed.
+
+Theorem civil_ts_roundtrip : forall n,
+  valid_ymd (fst (civil_of_ts n)) /\ valid_hms (snd (civil_of_ts n)) /\
+  ts_of_civil (fst (civil_of_ts n)) (snd (civil_of_ts n)) = n.
+Proof.
+  intro n. unfold civil_of_ts. cbn [fst snd].
+  pose proof (days_from_civil_from_days (day_of_dt n)) as H.
+  destruct (civil_from_days (day_of_dt n)) as [[y m] d]. destruct H as [V E].
+  destruct (instant_decompose n) as [D B].
+  destruct (hms_of_valid _ B) as [Vh Eh].
+  destruct (hms_of (secs_of_day n)) as [[h mi] sec].
+  split; [exact V | split; [exact Vh | ] ].
+  unfold ts_of_civil. rewrite E, Eh. exact D.
+Qed.
+
+Theorem ts_civil_roundtrip : forall y m d h mi sec,
+  valid_date y m d = true -> valid_hms (h, mi, sec) ->
+  civil_of_ts (ts_of_civil (y, m, d) (h, mi, sec)) = ((y, m, d), (h, mi, sec)).
+Proof.
+  intros y m d h mi sec V Vh.
+  destruct (hms_of_sod_of _ _ _ Vh) as [E B].
+  unfold civil_of_ts, ts_of_civil.
+  destruct (instant_compose (days_from_civil y m d) _ B) as [-> ->].
+  rewrite (civil_from_days_from_civil _ _ _ V), E. reflexivity.
+Qed.
+
+(* ------------------------------------------------------------------------------------- *)
+(* 2. the years 1..9999                                                                    *)
+(* ------------------------------------------------------------------------------------- *)
+Definition TS_MIN : Z := -62135596800.      (* 0001-01-01 00:00:00 *)
+Definition TS_MAX : Z := 253402300799.      (* 9999-12-31 23:59:59 *)
+
+Lemma ts_bounds_civil :
+  civil_of_ts TS_MIN = ((1, 1, 1), (0, 0, 0)) /\ civil_of_ts TS_MAX = ((9999, 12, 31), (23, 59, 59)).
+Proof. split; vm_compute; reflexivity. Qed.
+
+Lemma MIN_DAY_val : MIN_DAY = -96465292. Proof. vm_compute. reflexivity. Qed.
+Lemma MAX_DAY_val : MAX_DAY = 95026236. Proof. vm_compute. reflexivity. Qed.
+
+Lemma dt_ok_iff t : dt_ok t = true <-> MIN_DAY * 86400 <= t < (MAX_DAY + 1) * 86400.
+Proof. unfold dt_ok. rewrite Bool.andb_true_iff, Z.leb_le, Z.ltb_lt. tauto. Qed.
+
+Theorem years_1_9999_accepted : forall n, TS_MIN <= n <= TS_MAX -> dt_ok n = true.
+Proof.
+  intros n H. apply dt_ok_iff. rewrite MIN_DAY_val, MAX_DAY_val. unfold TS_MIN, TS_MAX in H. lia.
+Qed.
+
+Theorem years_1_9999_range : forall n,
+  TS_MIN <= n <= TS_MAX <-> 1 <= year_of (day_of_dt n) <= 9999.
+Proof.
+  intro n. unfold year_of.
+  assert (L : civil_from_days (-719162) = (1, 1, 1)) by (vm_compute; reflexivity).
+  assert (L0 : civil_from_days (-719163) = (0, 12, 31)) by (vm_compute; reflexivity).
+  assert (U : civil_from_days 2932896 = (9999, 12, 31)) by (vm_compute; reflexivity).
+  assert (U1 : civil_from_days 2932897 = (10000, 1, 1)) by (vm_compute; reflexivity).
+  unfold TS_MIN, TS_MAX, day_of_dt.
+  set (dn := n / 86400).
+  assert (Hd : (-62135596800 <= n <= 253402300799) <-> (-719162 <= dn <= 2932896)) by (subst dn; lia).
+  rewrite Hd. clear Hd.
+  split.
+  - intros [Ha Hb].
+    assert (A : 1 <= (let '(y, _, _) := civil_from_days dn in y)).
+    { destruct (Z.eq_dec dn (-719162)) as [-> | Hne]; [rewrite L; lia | ].
+      pose proof (civil_from_days_lt (-719162) dn ltac:(lia)) as H. rewrite L in H.
+      destruct (civil_from_days dn) as [[y m] d]. unfold date_lt in H. lia. }
+    assert (B : (let '(y, _, _) := civil_from_days dn in y) <= 9999).
+    { destruct (Z.eq_dec dn 2932896) as [-> | Hne]; [rewrite U; lia | ].
+      pose proof (civil_from_days_lt dn 2932896 ltac:(lia)) as H. rewrite U in H.
+      destruct (civil_from_days dn) as [[y m] d]. unfold date_lt in H. lia. }
+    lia.
+  - intros [Ha Hb].
+    destruct (Z_lt_le_dec dn (-719162)) as [Hlt | Hge].
+    + exfalso.
+      assert (H : let '(y, _, _) := civil_from_days dn in y <= 0).
+      { destruct (Z.eq_dec dn (-719163)) as [-> | Hne]; [rewrite L0; lia | ].
+        pose proof (civil_from_days_lt dn (-719163) ltac:(lia)) as H. rewrite L0 in H.
+        destruct (civil_from_days dn) as [[y m] d]. unfold date_lt in H. lia. }
+      destruct (civil_from_days dn) as [[y m] d]. lia.
+    + destruct (Z_lt_le_dec 2932896 dn) as [Hgt | Hle]; [ | lia ].
+      exfalso.
+      assert (H : let '(y, _, _) := civil_from_days dn in 10000 <= y).
+      { destruct (Z.eq_dec dn 2932897) as [-> | Hne]; [rewrite U1; lia | ].
+        pose proof (civil_from_days_lt 2932897 dn ltac:(lia)) as H. rewrite U1 in H.
+        destruct (civil_from_days dn) as [[y m] d]. unfold date_lt in H. lia. }
+      destruct (civil_from_days dn) as [[y m] d]. lia.
+Qed.
+
+(* ------------------------------------------------------------------------------------- *)
+(* 4. Z_to_str prints every digit                                                          *)
+(* ------------------------------------------------------------------------------------- *)
+(* the local loop of Parser.Z_to_str *)
+Fixpoint digits10 (fuel : nat) (n : Z) (acc : str) : str :=
+  match fuel with
+  | O => acc
+  | S f => let acc' := (Z.to_N (48 + n mod 10)) :: acc in
+           if n <? 10 then acc' else digits10 f (n / 10) acc'
+  end.
+
+Lemma Z_to_str_unfold z :
+  Z_to_str z = if z <? 0 then 45%N :: digits10 (S (Z.to_nat (Z.log2 (- z)))) (- z) []
+               else digits10 (S (Z.to_nat (Z.log2 z))) z [].
+Proof. reflexivity. Qed.
+
+Definition is_digit (c : N) : Prop := (48 <= c <= 57)%N.
+
+Lemma parse_digits_app x y a :
+  parse_digits (x ++ y) a = match parse_digits x a with Some a' => parse_digits y a' | None => None end.
+Proof.
+  revert a. induction x as [ | c r IH]; intro a; cbn [app parse_digits]; [reflexivity | ].
+  destruct (N.leb 48 c && N.leb c 57)%bool; [apply IH | reflexivity].
+Qed.
+
+Lemma digit_char_ok k : 0 <= k < 10 ->
+  is_digit (Z.to_N (48 + k)) /\ forall a, parse_digits [Z.to_N (48 + k)] a = Some (a * 10 + k).
+Proof.
+  intro H. assert (C : k = 0 \/ k = 1 \/ k = 2 \/ k = 3 \/ k = 4 \/ k = 5 \/ k = 6 \/ k = 7 \/ k = 8 \/ k = 9) by lia.
+  unfold is_digit.
+  repeat (destruct C as [-> | C]); try subst k; (split; [ vm_compute; split; discriminate | intro a; cbn; f_equal; lia ]).
+Qed.
+
+Definition ndigits (ds : str) (n : Z) : Prop :=     (* ds has exactly as many characters as n has digits *)
+  ds <> [] /\ Forall is_digit ds /\ n < 10 ^ Z.of_nat (length ds) /\
+  (n < 10 -> length ds = 1%nat) /\ (10 <= n -> 10 ^ (Z.of_nat (length ds) - 1) <= n).
+
+(* with enough fuel the loop emits the decimal digits of n in front of acc: they are digits,
+   they read back as n, and there is no leading zero (the length is that of n) *)
+Lemma digits10_spec : forall fuel n acc, (0 < fuel)%nat -> 0 <= n < 10 ^ Z.of_nat fuel ->
+  exists ds, digits10 fuel n acc = ds ++ acc /\ ndigits ds n /\
+             (forall a, parse_digits ds a = Some (a * 10 ^ Z.of_nat (length ds) + n)).
+Proof.
+  unfold ndigits.
+  induction fuel as [ | f IH]; intros n acc Hfuel H.
+  - exfalso. inversion Hfuel.
+  - cbn [digits10].
+    assert (Hk : 0 <= n mod 10 < 10) by lia.
+    destruct (digit_char_ok _ Hk) as [Dc Pc].
+    set (c := Z.to_N (48 + n mod 10)) in *.
+    destruct (Z.ltb_spec n 10) as [Hlt | Hge].
+    + exists [c]. split; [reflexivity | ]. cbn [length]. change (10 ^ Z.of_nat 1) with 10.
+      split; [ split; [discriminate | split; [constructor; [exact Dc | constructor] | split; [exact Hlt | split; [reflexivity | lia] ] ] ] | ].
+      intro a. rewrite Pc. f_equal. lia.
+    + assert (Hf : 0 <= n / 10 < 10 ^ Z.of_nat f).
+      { rewrite Nat2Z.inj_succ, Z.pow_succ_r in H by lia. lia. }
+      assert (Hf0 : (0 < f)%nat).
+      { destruct f; [ change (10 ^ Z.of_nat 0) with 1 in Hf; exfalso; lia | apply Nat.lt_0_succ ]. }
+      destruct (IH (n / 10) (c :: acc) Hf0 Hf) as (ds & E & (Hne & Hd & Hub & Hl1 & Hl2) & Hp).
+      exists (ds ++ [c]). split; [rewrite E, <- app_assoc; reflexivity | ].
+      assert (Hlen : Z.of_nat (length (ds ++ [c])) = Z.succ (Z.of_nat (length ds))).
+      { rewrite app_length. cbn [length]. lia. }
+      rewrite Hlen, Z.pow_succ_r by lia.
+      split; [ split; [destruct ds; discriminate | split; [ | split; [lia | split; [lia | ] ] ] ] | ].
+      * apply Forall_app; split; [exact Hd | constructor; [exact Dc | constructor] ].
+      * intros _. replace (Z.succ (Z.of_nat (length ds)) - 1) with (Z.of_nat (length ds)) by lia.
+        destruct (Z_lt_le_dec (n / 10) 10) as [Hs | Hb].
+        -- rewrite (Hl1 Hs). change (10 ^ Z.of_nat 1) with 10. lia.
+        -- specialize (Hl2 Hb).
+           assert (Hpos : 1 <= Z.of_nat (length ds)) by (destruct ds; [contradiction | cbn [length]; lia]).
+           replace (Z.of_nat (length ds)) with (Z.succ (Z.of_nat (length ds) - 1)) by lia.
+           rewrite Z.pow_succ_r by lia. lia.
+      * intro a. rewrite parse_digits_app, Hp, Pc. f_equal. lia.
+Qed.
+
+(* the fuel of Z_to_str is enough for every integer *)
+Lemma fuel_enough n : 0 <= n -> 0 <= n < 10 ^ Z.of_nat (S (Z.to_nat (Z.log2 n))).
+Proof.
+  intro H. split; [exact H | ].
+  rewrite Nat2Z.inj_succ, Z2Nat.id by apply Z.log2_nonneg.
+  destruct (Z.eq_dec n 0) as [-> | Hne]; [vm_compute; reflexivity | ].
+  pose proof (Z.log2_spec n ltac:(lia)) as [_ Hu].
+  eapply Z.lt_le_trans; [exact Hu | ].
+  apply Z.pow_le_mono_l. lia.
+Qed.
+
+Lemma parse_i64_digit c r : is_digit c -> parse_i64 (c :: r) = parse_digits (c :: r) 0.
+Proof.
+  unfold is_digit. intro H. unfold parse_i64.
+  destruct c as [ | p]; [reflexivity | ].
+  do 6 (destruct p as [p | p | ]; try reflexivity); exfalso; lia.
+Qed.
+
+(* the text is an optional '-' followed by the digits of |z|: as many characters as |z| has
+   decimal digits (so no digit is dropped and none is added), reading back as z *)
+Theorem z_to_str_decimal : forall z,
+  parse_i64 (Z_to_str z) = Some z /\
+  exists ds, Z_to_str z = (if z <? 0 then [45%N] else []) ++ ds /\ ndigits ds (Z.abs z) /\
+             parse_digits ds 0 = Some (Z.abs z).
+Proof.
+  intro z. rewrite Z_to_str_unfold.
+  destruct (Z.ltb_spec z 0) as [Hneg | Hpos].
+  - destruct (digits10_spec _ _ [] (Nat.lt_0_succ _) (fuel_enough (- z) ltac:(lia))) as (ds & E & Hn & Hp).
+    rewrite E, app_nil_r.
+    assert (Hv : parse_digits ds 0 = Some (- z)) by (rewrite Hp; f_equal; lia).
+    replace (Z.abs z) with (- z) by lia.
+    split.
+    + destruct ds as [ | c r]; [destruct Hn as [Hn _]; contradiction | ].
+      cbn [parse_i64]. rewrite Hv. cbn [option_map]. f_equal. lia.
+    + exists ds. split; [reflexivity | split; [exact Hn | exact Hv] ].
+  - destruct (digits10_spec _ _ [] (Nat.lt_0_succ _) (fuel_enough z Hpos)) as (ds & E & Hn & Hp).
+    rewrite E, app_nil_r.
+    assert (Hv : parse_digits ds 0 = Some z) by (rewrite Hp; f_equal; lia).
+    replace (Z.abs z) with z by lia.
+    split.
+    + destruct ds as [ | c r]; [destruct Hn as [Hn _]; contradiction | ].
+      destruct Hn as (_ & Hd & _). inversion Hd; subst.
+      rewrite parse_i64_digit by assumption. exact Hv.
+    + exists ds. split; [reflexivity | split; [exact Hn | exact Hv] ].
+Qed.
+
+Corollary z_to_str_injective : forall a b, Z_to_str a = Z_to_str b -> a = b.
+Proof.
+  intros a b H. pose proof (proj1 (z_to_str_decimal a)) as Ha. pose proof (proj1 (z_to_str_decimal b)) as Hb.
+  rewrite H in Ha. congruence.
+Qed.
+
+(* ------------------------------------------------------------------------------------- *)
+(* 3. the rule functions                                                                   *)
+(* ------------------------------------------------------------------------------------- *)
+Section Rules.
+Context {F : Type} {NF : Num F}.
+
+(* a rule field holds an item: as a token of the line, or through a variable of the session *)
+Definition field_is (vs : vars F) (k : string) (fs : fields F) (i : item F) : Prop :=
+  exists ti, assoc (s k) fs = Some ti /\
+    (ti_ty ti = Some (item_token i) \/
+     exists v, ti_ty ti = Some (TVariable v) /\ var_item vs v = Some i).
+
+Lemma field_is_has vs k fs i : field_is vs k fs i -> has k fs = true.
+Proof. intros (ti & Ha & _). unfold has, assoc_mem. rewrite Ha. reflexivity. Qed.
+
+Ltac field_cases H :=
+  let ti := fresh "ti" in let Ha := fresh "Ha" in let Hd := fresh "Hd" in
+  let v := fresh "v" in let Hv := fresh "Hv" in let Hi := fresh "Hi" in
+  destruct H as (ti & Ha & [Hd | (v & Hv & Hi)]);
+  unfold get_time, get_date, get_date_time, get_number, field_token;
+  rewrite Ha; [rewrite Hd | rewrite Hv, Hi]; reflexivity.
+
+Lemma get_time_time vs k fs t z : field_is vs k fs (ITime t z) -> get_time vs (s k) fs = Some (t, z).
+Proof. intro H. field_cases H. Qed.
+Lemma get_time_date vs k fs d z : field_is vs k fs (IDate d z) -> get_time vs (s k) fs = None.
+Proof. intro H. field_cases H. Qed.
+Lemma get_time_datetime vs k fs t z : field_is vs k fs (IDateTime t z) -> get_time vs (s k) fs = None.
+Proof. intro H. field_cases H. Qed.
+Lemma get_date_date vs k fs d z : field_is vs k fs (IDate d z) -> get_date vs (s k) fs = Some (d, z).
+Proof. intro H. field_cases H. Qed.
+Lemma get_date_datetime vs k fs t z : field_is vs k fs (IDateTime t z) -> get_date vs (s k) fs = None.
+Proof. intro H. field_cases H. Qed.
+Lemma get_date_time_datetime vs k fs t z : field_is vs k fs (IDateTime t z) -> get_date_time vs (s k) fs = Some (t, z).
+Proof. intro H. field_cases H. Qed.
+Lemma get_number_number vs k fs x nt : field_is vs k fs (INumber x nt) -> get_number vs (s k) fs = Some x.
+Proof. intro H. field_cases H. Qed.
+Lemma get_number_time vs k fs t z : field_is vs k fs (ITime t z) -> get_number vs (s k) fs = None.
+Proof. intro H. field_cases H. Qed.
+
+(* the instant a time, a date or a date-time denotes: a date is its midnight UTC; the display
+   zone of the item plays no role *)
+Definition instant_of (i : item F) : option Z :=
+  match i with
+  | ITime t _ => Some t
+  | IDate d _ => Some (86400 * d)
+  | IDateTime t _ => Some t
+  | _ => None
+  end.
+
+Theorem to_unixtime_exact : forall vs fs i ts,
+  field_is vs "data" fs i -> instant_of i = Some ts ->
+  to_unixtime vs fs = Ok (Some (TNumber (fofZ ts) Raw)).
+Proof.
+  intros vs fs i ts H Hi. unfold to_unixtime. rewrite (field_is_has _ _ _ _ H).
+  destruct i; try discriminate; cbn [instant_of] in Hi; injection Hi as <-.
+  - rewrite (get_time_time _ _ _ _ _ H). reflexivity.
+  - rewrite (get_time_date _ _ _ _ _ H), (get_date_date _ _ _ _ _ H).
+    unfold dt_of. replace (days * 86400 + 0) with (86400 * days) by lia. reflexivity.
+  - rewrite (get_time_datetime _ _ _ _ _ H), (get_date_datetime _ _ _ _ _ H), (get_date_time_datetime _ _ _ _ _ H).
+    reflexivity.
+Qed.
+
+(* the zone 'N to date' shows: the requested one when there is one, the configured one otherwise *)
+Definition shown_zone (cfg : config F) (vs : vars F) (fs : fields F) : tzinfo :=
+  match get_timezone vs (s "timezone") fs with
+  | Some (n, o) => {| tz_name := to_uppercase n; tz_off := o |}
+  | None => get_time_offset cfg
+  end.
+
+(* never a panic: an instant chrono cannot represent is declined; the instant is the number
+   itself whatever the zone *)
+Theorem from_unixtime_exact : forall cfg vs fs x nt,
+  field_is vs "number" fs (INumber x nt) ->
+  from_unixtime cfg vs fs =
+  Ok (if dt_ok (as_i64 x) then Some (TDateTime (as_i64 x) (shown_zone cfg vs fs)) else None).
+Proof.
+  intros cfg vs fs x nt H. unfold from_unixtime, shown_zone.
+  rewrite (field_is_has _ _ _ _ H), (get_number_number _ _ _ _ _ H).
+  destruct (dt_ok (as_i64 x)); cbn [negb]; [ | reflexivity ].
+  destruct (get_timezone vs (s "timezone") fs) as [[n o] | ]; reflexivity.
+Qed.
+
+Lemma shown_zone_requested cfg vs fs ti n o :
+  assoc (s "timezone") fs = Some ti -> ti_ty ti = Some (TTimezone n o) ->
+  shown_zone cfg vs fs = {| tz_name := to_uppercase n; tz_off := o |}.
+Proof. intros Ha Ht. unfold shown_zone, get_timezone, field_token. rewrite Ha, Ht. reflexivity. Qed.
+
+Lemma shown_zone_default cfg vs fs :
+  assoc (s "timezone") fs = None -> shown_zone cfg vs fs = cf_tz cfg.
+Proof. intros Ha. unfold shown_zone, get_timezone, field_token. rewrite Ha. reflexivity. Qed.
+
+(* N -> date-time -> N *)
+Theorem roundtrip_number : forall cfg vs fs n nt,
+  field_is vs "number" fs (INumber (fofZ n) nt) -> as_i64 (fofZ n) = n -> dt_ok n = true ->
+  from_unixtime cfg vs fs = Ok (Some (TDateTime n (shown_zone cfg vs fs))) /\
+  forall vs' fs', field_is vs' "data" fs' (IDateTime n (shown_zone cfg vs fs)) ->
+    to_unixtime vs' fs' = Ok (Some (TNumber (fofZ n) Raw)).
+Proof.
+  intros cfg vs fs n nt H Hn Hok. split.
+  - rewrite (from_unixtime_exact _ _ _ _ _ H), Hn, Hok. reflexivity.
+  - intros vs' fs' H'. apply (to_unixtime_exact _ _ _ _ H'). reflexivity.
+Qed.
+
+(* date-time -> N -> the same instant *)
+Theorem roundtrip_datetime : forall vs fs t z,
+  field_is vs "data" fs (IDateTime t z) -> as_i64 (fofZ t) = t -> dt_ok t = true ->
+  to_unixtime vs fs = Ok (Some (TNumber (fofZ t) Raw)) /\
+  forall cfg vs' fs', field_is vs' "number" fs' (INumber (fofZ t) Raw) ->
+    from_unixtime cfg vs' fs' = Ok (Some (TDateTime t (shown_zone cfg vs' fs'))).
+Proof.
+  intros vs fs t z H Ht Hok. split.
+  - apply (to_unixtime_exact _ _ _ _ H). reflexivity.
+  - intros cfg vs' fs' H'. rewrite (from_unixtime_exact _ _ _ _ _ H'), Ht, Hok. reflexivity.
+Qed.
+
+(* at: a date and an hour 0..23, or a date and a time *)
+Lemma f_as_bounds lo hi (x : F) : lo <= 0 <= hi -> lo <= f_as lo hi x <= hi.
+Proof.
+  intro H. unfold f_as, clampZ. destruct (fcls x); try lia.
+  destruct (Z.ltb_spec (ftruncZ x) lo); [lia | ]. destruct (Z.ltb_spec hi (ftruncZ x)); lia.
+Qed.
+
+Lemma as_u32_nonneg (x : F) : 0 <= as_u32 x.
+Proof. unfold as_u32. pose proof (f_as_bounds 0 (2 ^ 32 - 1) x ltac:(lia)). lia. Qed.
+
+Theorem at_date_hour : forall vs fs d z x nt,
+  field_is vs "source" fs (IDate d z) -> field_is vs "time" fs (INumber x nt) ->
+  at_date vs fs = Ok (if as_u32 x <? 24 then Some (TDateTime (86400 * d + 3600 * as_u32 x) z) else None) /\
+  (as_u32 x < 24 ->
+   day_of_dt (86400 * d + 3600 * as_u32 x) = d /\
+   hms_of (secs_of_day (86400 * d + 3600 * as_u32 x)) = (as_u32 x, 0, 0)).
+Proof.
+  intros vs fs d z x nt Hs Ht. split.
+  - unfold at_date, get_number_or_time.
+    rewrite (field_is_has _ _ _ _ Hs), (field_is_has _ _ _ _ Ht), (get_date_date _ _ _ _ _ Hs),
+      (get_number_number _ _ _ _ _ Ht).
+    cbn [andb bind]. destruct (as_u32 x <? 24); [ | reflexivity ].
+    unfold dt_of. replace (d * 86400 + as_u32 x * 3600) with (86400 * d + 3600 * as_u32 x) by lia. reflexivity.
+  - intro Hh. pose proof (as_u32_nonneg x) as H0. unfold day_of_dt, secs_of_day, hms_of.
+    split; [lia | ]. f_equal; [f_equal | ]; lia.
+Qed.
+
+Theorem at_date_time : forall vs fs d z t tz,
+  field_is vs "source" fs (IDate d z) -> field_is vs "time" fs (ITime t tz) ->
+  at_date vs fs = Ok (Some (TDateTime (86400 * d + secs_of_day t) z)) /\
+  day_of_dt (86400 * d + secs_of_day t) = d /\
+  secs_of_day (86400 * d + secs_of_day t) = secs_of_day t.
+Proof.
+  intros vs fs d z t tz Hs Ht. split.
+  - unfold at_date, get_number_or_time.
+    rewrite (field_is_has _ _ _ _ Hs), (field_is_has _ _ _ _ Ht), (get_date_date _ _ _ _ _ Hs),
+      (get_number_time _ _ _ _ _ Ht), (get_time_time _ _ _ _ _ Ht).
+    cbn [andb bind option_map fst]. unfold dt_of. replace (d * 86400 + secs_of_day t) with (86400 * d + secs_of_day t) by lia. reflexivity.
+  - unfold day_of_dt, secs_of_day. lia.
+Qed.
+
+(* the printed timestamp: NumberType::Raw prints the whole 64-bit integer *)
+Theorem raw_print_all_digits : forall cfg lang ny n,
+  as_i64 (fofZ n) = n ->
+  item_print cfg lang ny (INumber (fofZ n) Raw) = Ok (Z_to_str n) /\
+  parse_i64 (Z_to_str n) = Some n.
+Proof.
+  intros cfg lang ny n Hn. split; [ cbn [item_print]; rewrite Hn; reflexivity | apply z_to_str_decimal ].
+Qed.
+
+End Rules.
